@@ -118,6 +118,7 @@ type Stats struct {
 	CrossChecked         int            `json:"cross_checked_queries"`
 	CrossDisagree        int            `json:"cross_disagreements"`
 	CrossUndecided       int            `json:"cross_undecided"`
+	SolverRestarts       int            `json:"solver_restarts"`
 	CrossSkipped         int            `json:"cross_not_sampled"`
 	MaxTermSize          int            `json:"max_assert_term_nodes"`
 	AssertsByModel       int            `json:"asserts_refuted_by_path_model"`
@@ -403,8 +404,22 @@ func (e *Engine) check(extra *Term) (SatResult, *Model) {
 	}
 	r, mv, err := e.solver.Check(e.pc, extra, e.vars)
 	if err != nil {
-		e.markInconclusive("solver: " + err.Error())
-		return Unknown, nil
+		// the back end died or lost sync (a killed process, memory pressure): one fresh process and the
+		// same query again; if that fails too the one-shot portfolio below gets the query
+		first := err
+		e.solver.Close()
+		if ns, nerr := NewSolver(e.opts.Solver, e.opts.TimeoutMS); nerr == nil {
+			ns.Queries, ns.Seconds, ns.NUnknown, ns.MaxQuery = e.solver.Queries, e.solver.Seconds, e.solver.NUnknown, e.solver.MaxQuery
+			e.solver = ns
+			e.res.Stats.SolverRestarts++
+			r, mv, err = e.solver.Check(e.pc, extra, e.vars)
+		}
+		if err != nil {
+			if os.Getenv("VF_DEBUG") != "" {
+				fmt.Fprintf(os.Stderr, "[%s] solver error twice: %v / %v\n", e.harness, first, err)
+			}
+			r, mv = Unknown, nil
+		}
 	}
 	if r == Unknown {
 		// secondary back ends (one-shot): z3 4.8.12, cvc5 bv-as-int, cvc5
